@@ -176,7 +176,7 @@ class XsdWildcard(XsdComponent):
     def is_namespace_allowed(self, namespace: str) -> bool:
         if self.not_namespace:
             return namespace not in self.not_namespace
-        elif '##any' in self.namespace or namespace == nm.XSI_NAMESPACE:
+        elif '##any' in self.namespace:
             return True
         elif '##other' in self.namespace:
             if not namespace:
